@@ -692,6 +692,12 @@ def _mutate_node(rng, node):
         choices.append(("Constant", v + 1))
         choices.append(("Constant", -v if v != 0 else 0.5))
         choices.append(("Variable", "c"))
+        # numerically close but different values (next float, 1e-12 and 1e-9 relative, tiny absolute)
+        fv = float(v)
+        choices.append(("Constant", math.nextafter(fv, math.inf)))
+        choices.append(("Constant", fv * (1 + 1e-12) if fv != 0 else 1e-300))
+        choices.append(("Constant", fv * (1 - 5e-10) if fv != 0 else -5e-324))
+        choices.append(("Constant", fv + 1e-9))
     elif k == "Variable":
         choices.append(("Variable", node[1] + "_"))
         choices.append(("Variable", node[1].upper() if node[1].upper() != node[1] else node[1].lower() + "q"))
@@ -705,6 +711,8 @@ def _mutate_node(rng, node):
     elif k in S.BASED:
         b = S.base_value(node[2])
         choices.append((k, node[1], b + 1))
+        choices.append((k, node[1], math.nextafter(float(b), math.inf)))
+        choices.append((k, node[1], float(b) * (1 + 1e-10)))
         choices.append((k, node[1], b * 0.5 if b * 0.5 != 1 else 0.75))
         if not (k == "Exponential" and b == 1):
             choices.append((SIBLING[k], node[1], node[2]))
